@@ -14,7 +14,7 @@ package main
 //	authn xfcc <tr> <cidrs> <peer addr|nopeer> <header values|-> <parsed>
 //	      real XfccAuthenticator; `parsed` is what the third-party xfccparser returns for the first
 //	      EVERY header value, in order (the model takes the parser as given): list of (err | list of uris|dns|hasSubject|cn)
-//	authn cert <tr> <peer nopeer|noauth|other|tls> <chains>
+//	authn cert <tr> <peer nopeer|noauth|other|tls|tlspeer (presented, unverified certificates)> <chains>
 //	      real ClientCertAuthenticator; chains: list of chains, chain = certs joined by '|',
 //	      cert = nosan | bad | san:<entries>, entry = D:<s> U:<s> I:<hex> E:<s>
 //
@@ -495,12 +495,20 @@ func (s *authnSUT) prepare(f []string) (*prepared, error) {
 			p.authInfo = nil
 		case "other":
 			p.authInfo = otherAuthInfo{}
-		case "tls":
+		case "tls", "tlspeer":
 			chains, err := chainsFromTok(f[3])
 			if err != nil {
 				return nil, err
 			}
 			st := tls.ConnectionState{VerifiedChains: chains}
+			if f[2] == "tlspeer" {
+				// certificates were presented but not verified (ClientAuth = RequestClientCert /
+				// RequireAnyClientCert): PeerCertificates set, VerifiedChains empty
+				st = tls.ConnectionState{}
+				if len(chains) > 0 {
+					st.PeerCertificates = chains[0]
+				}
+			}
 			p.authInfo = credentials.TLSInfo{State: st}
 			p.httpTLS = &st
 		}
